@@ -68,7 +68,31 @@ def _update_dict(flow, call: ast.Call, argname: str | None):
         if len(ds) == 1:
             node = ds[0].value
     d = dict_literal_keys(node)
+    if d is None and _forwards_parameter(flow, node):
+        return {}, node   # the caller's mapping passed on (possibly copied): its keys are checked where it is built
     return d, node
+
+
+def _forwards_parameter(flow, e: ast.AST, depth: int = 0) -> bool:
+    """e is a parameter of the function, an empty dict, a copy of those (`dict(p)`, `{**p}`, `p.copy()`), or a choice between them."""
+    if depth > 4 or e is None:
+        return False
+    if isinstance(e, ast.Name):
+        return e.id in flow.fn.params
+    if isinstance(e, ast.Dict):
+        return all(k is None and _forwards_parameter(flow, v, depth + 1) for k, v in zip(e.keys, e.values))
+    if isinstance(e, ast.Call):
+        d = dotted(e.func)
+        if d == "dict" and not e.keywords:
+            return not e.args or (len(e.args) == 1 and _forwards_parameter(flow, e.args[0], depth + 1))
+        if isinstance(e.func, ast.Attribute) and e.func.attr == "copy" and not e.args:
+            return _forwards_parameter(flow, e.func.value, depth + 1)
+        return False
+    if isinstance(e, ast.IfExp):
+        return _forwards_parameter(flow, e.body, depth + 1) and _forwards_parameter(flow, e.orelse, depth + 1)
+    if isinstance(e, ast.BoolOp) and isinstance(e.op, ast.Or):
+        return all(_forwards_parameter(flow, v, depth + 1) for v in e.values)
+    return False
 
 
 def _header_updates(fn: FuncInfo):
